@@ -536,8 +536,20 @@ def get_array_target(world: World, a, var: str):
     return obj
 
 
+def mut_target(world: World, obj, m: str):
+    """The PatchedCounts that SetPatchPair edits: obj itself, obj.counts, obj.<member>.counts."""
+    target = obj if m == "x" else getattr(obj, m)
+    if isinstance(target, world.NormalisedCounts):
+        target = target.counts
+    return target
+
+
+def pair_values(sel, nb: int):
+    return np.array([0.0 if sel["st"] == 0 else float(sel["st"] + b) for b in range(1, nb + 1)])
+
+
 def execute(world: World, h, res, rws, salt: int = 0):
-    """-> ("val", obj) | ("rej", exc) | ("bool", x) | ("list", [...]) | ("arr", ndarray) | ("asym", (x == y, y == x)) | ("mut", updated copy of the operand) | ("other", x)."""
+    """-> ("val", obj) | ("rej", exc) | ("bool", x) | ("list", [...]) | ("arr", ndarray) | ("asym", (x == y, y == x)) | ("mut", updated copy of the operand) | ("selfmut", (result, changed fields of the object itself)) | ("other", x)."""
     op = h["op"]
     a = rws[h["i"] - 1]
     args = res.get("args", [])
@@ -559,15 +571,12 @@ def execute(world: World, h, res, rws, salt: int = 0):
         elif op == "SetPatchPair":
             # the mutator works on a deep copy (hidden state such as caches is copied with it): the
             # siblings of this step in the history tree still need the operand as it was
+            # (what the edit does to OTHER workspace objects that may share memory with the operand is probed on the
+            # live objects by Replayer._alias_probe before this step)
             obj = copy.deepcopy(a)
-            m, sel = h["var"], h["sel"]
-            target = obj if m == "x" else getattr(obj, m)
-            if isinstance(target, world.NormalisedCounts):
-                target = target.counts
-            nb = target.num_bins
-            binned = np.array([0.0 if sel["st"] == 0 else float(sel["st"] + b) for b in range(1, nb + 1)])
-            ret = target.set_patch_pair(int(sel["lo"]) - 1, int(sel["hi"]) - 1, binned)
-            return ("mut", obj) if ret is None else ("other", ret)
+            target = mut_target(world, obj, h["var"])
+            target.set_patch_pair(int(h["sel"]["lo"]) - 1, int(h["sel"]["hi"]) - 1, pair_values(h["sel"], target.num_bins))
+            return ("mut", obj)
         elif op == "AddVar":
             other = _operand(world, h, args, a)
             r = (other + a) if h["req"] else (a + other)
@@ -630,8 +639,19 @@ def execute(world: World, h, res, rws, salt: int = 0):
         elif op == "RedshiftCDVar":
             r = world.RedshiftData.from_corrdata(a, world.build(args[0]), None)
         elif op == "Normalise":
+            # HistData / RedshiftData wrap the arrays of the operand (np.asarray in the constructor: no copy), as
+            # a user's conversion would: normalised() must return a NEW container and leave its own data alone
             cls = world.RedshiftData if h["var"] == "nz" else world.HistData
-            r = cls(a.binning, np.array(a.data, dtype=float), np.array(a.samples, dtype=float)).normalised()
+            typed = cls(a.binning, a.data, a.samples)
+            before = (np.array(typed.data, dtype=float), np.array(typed.samples, dtype=float),
+                      np.array(typed.binning.edges, dtype=float), str(typed.binning.closed))
+            r = typed.normalised()
+            after = (np.asarray(typed.data, dtype=float), np.asarray(typed.samples, dtype=float),
+                     np.asarray(typed.binning.edges, dtype=float), str(typed.binning.closed))
+            changed = [name for name, x, y in zip(("data", "samples", "edges"), before, after)
+                       if x.shape != y.shape or not np.array_equal(x, y, equal_nan=True)] + (["closed"] if before[3] != after[3] else [])
+            if changed:
+                return ("selfmut", (r, changed))
         elif op == "Construct":
             return ("construct", None)
         else:
@@ -809,6 +829,10 @@ class Judge:
             return self._judge_construct(scen, hist, res, vws, det)
         if kind == "other":
             self.violation(h, vws, "returns_NotImplemented", det(real=repr(val)))
+            return None
+        if kind == "selfmut":
+            # a non-mutating method changed the object it was called on
+            self.violation(h, vws, "mutates_operand", det(fields=val[1], real=_describe(val[0])))
             return None
         if kind == "intdiff":
             # x.bins[np.int64(i)] (or .patches) is not equal to x.bins[int(i)]
@@ -1104,6 +1128,7 @@ class Replayer:
         self.eq_on_undefined = 0     # == with a prescribed result, executed on a real container holding NaN
         self.mutations = 0           # steps after which an older object of the workspace had changed
         self.classes_seen: dict = {}  # (class, operation, input class, expected outcome) of the replayed steps
+        self.edit_of_selection: dict = {}  # (class, Bins|Patches, index|slice): SetPatchPair on a selection of an older object
         self.around_mutation: dict = {}  # (operation before, "SetPatchPair", operation after) of the replayed histories
         self.sampling_is_foreign = sampling_is_foreign
 
@@ -1143,6 +1168,34 @@ class Replayer:
             done += 1
             self._descend(scen, [], [v0], [root], children, base_ok)
 
+    def _alias_probe(self, scen, khist, res, vws, rws):
+        """set_patch_pair on the LIVE operand (the step itself then works on a copy): containers derived from one
+        another (selections are numpy views before the constructors copy them) must not share the edited memory -
+        every OTHER object of the workspace still has its model value.  The edit is taken back at once."""
+        h = khist[-1]
+        pos = h["i"] - 1
+        try:
+            target = mut_target(self.world, rws[pos], h["var"])
+            p, q = int(h["sel"]["lo"]) - 1, int(h["sel"]["hi"]) - 1
+            old = np.array(target.counts[:, p, q], dtype=np.float64, copy=True)
+            target.set_patch_pair(p, q, pair_values(h["sel"], target.num_bins))
+        except Exception:
+            return      # reported by the step itself
+        try:
+            for k, (ro, v) in enumerate(zip(rws, vws)):
+                if k == pos:
+                    continue
+                mm = self.world.mismatches(ro, v)
+                if mm:
+                    self.judge.violation(h, vws, "mutates_other_object",
+                                         self.judge.detail(scen, khist, res, dict(object=k + 1, fields=mm, edited_object=pos + 1)))
+                    self.mutations += 1
+        finally:
+            target.set_patch_pair(p, q, old)
+        if len(khist) > 1 and khist[-2]["op"] in ("Bins", "Patches") and khist[-2]["i"] != h["i"]:
+            key = (CLASSNAME[vws[pos]["k"]], khist[-2]["op"], "index" if khist[-2]["sel"]["t"] in ("int", "npint") else "slice")
+            self.edit_of_selection[key] = self.edit_of_selection.get(key, 0) + 1
+
     def _descend(self, scen, hist, vws, rws, children, base_ok):
         kids = children.get(self.hkey(hist), [])
         if not kids:
@@ -1170,6 +1223,8 @@ class Replayer:
             self.classes_seen[ck] = self.classes_seen.get(ck, 0) + 1
             if h["op"] in ("Eq", "EqVar") and res["out"] == "bool" and has_undefined(vws[h["i"] - 1]):
                 self.eq_on_undefined += 1
+            if h["op"] == "SetPatchPair":
+                self._alias_probe(scen, khist, res, vws, rws)
             outcome = execute(self.world, h, res, rws, salt=len(khist))
             obj = self.judge.judge(scen, khist, res, vws, outcome, base_sampling_ok=base_ok)
             # operands must be unchanged (operations are pure)
